@@ -1,10 +1,14 @@
 #!/bin/sh
-# usage: try_seed.sh <patch.diff> <property> [tier]  - run a check against /repo with a seeded change applied, then undo it.
+# usage: try_seed.sh <patch.diff> <property> [tier]  - run a check against a scratch worktree of /repo with a seeded
+# change applied; the worktree (and its build output) is removed afterwards.  /repo itself is never touched, so several
+# of these may run side by side and next to a check of the clean tree.
 # Evidence and reports of such a run go to a scratch directory (VERIF_OUT_DIR), never to /verif/evidence.
 P=$1; [ -f "$(dirname $1)/patch_current.diff" ] && P=$(dirname $1)/patch_current.diff; ID=$2; TIER=${3:-quick}
-git -C /repo apply "$P" || exit 3
+WT=$(mktemp -d /tmp/tryseed.wt.XXXXXX); rmdir "$WT"
+git -C /repo worktree add -q --detach "$WT" HEAD || exit 3
+git -C "$WT" apply "$P" || { git -C /repo worktree remove --force "$WT"; exit 3; }
 OUT=$(mktemp -d /tmp/tryseed.XXXXXX)
-cd /verif && VERIF_OUT_DIR=$OUT python3-vt verif.py check $ID --tier $TIER; RC=$?
-git -C /repo checkout -- . ; git -C /repo clean -fdq -e target
-rm -rf "$OUT"
+cd /verif && VERIF_REPO=$WT VERIF_OUT_DIR=$OUT python3-vt verif.py check $ID --tier $TIER; RC=$?
+git -C /repo worktree remove --force "$WT"; git -C /repo worktree prune
+rm -rf "$OUT" "$WT"
 echo "exit=$RC"
